@@ -33,14 +33,17 @@ class is_comb:
 
     def ensures_shapes(self, name, nargs, result):
         # spines of length 1, 2, 3 spelled out, so that callers need not unfold head_of / nargs_of
-        return implies(nargs_of(self) == 1, self.is_comb() and head_of(self) == self.fun and
+        # (keyed on the REQUESTED number of arguments, so that only the relevant shape is stated)
+        return implies(nargs == 1 and nargs_of(self) == 1, self.is_comb() and head_of(self) == self.fun and
                        not self.fun.is_comb()) and \
-            implies(nargs_of(self) == 2, self.is_comb() and self.fun.is_comb() and
+            implies(nargs == 2 and nargs_of(self) == 2, self.is_comb() and self.fun.is_comb() and
                     head_of(self) == self.fun.fun and not self.fun.fun.is_comb()) and \
-            implies(nargs_of(self) == 3, self.is_comb() and self.fun.is_comb() and self.fun.fun.is_comb() and
-                    head_of(self) == self.fun.fun.fun and not self.fun.fun.fun.is_comb()) and \
-            implies(self.is_comb() and not self.fun.is_comb(), nargs_of(self) == 1) and \
-            implies(self.is_comb() and self.fun.is_comb() and not self.fun.fun.is_comb(), nargs_of(self) == 2)
+            implies(nargs == 3 and nargs_of(self) == 3, self.is_comb() and self.fun.is_comb() and
+                    self.fun.fun.is_comb() and head_of(self) == self.fun.fun.fun and
+                    not self.fun.fun.fun.is_comb()) and \
+            implies(nargs == 1 and self.is_comb() and not self.fun.is_comb(), nargs_of(self) == 1) and \
+            implies(nargs == 2 and self.is_comb() and self.fun.is_comb() and not self.fun.fun.is_comb(),
+                    nargs_of(self) == 2)
 
     def invariant0(self, t, count):
         return self.is_comb() and head_of(t) == head_of(self.fun) and \
